@@ -13,6 +13,12 @@ def plan(tier):
           (PG.saturate_resize(2, 3, 0.05), 1, PT), (PG.two_submitters(2, 0.05), 1, PT),
           (PG.saturate(2, 2, None, "reusable"), 1, PT), (PG.saturate_partial_drain(3), 1, PT),
           (PG.saturate_partial_drain(2), 1, PT)]
+    # the call queue of a reusable executor is sized once: a pool grown far beyond its first
+    # size still gets every long task running; and (known finding F23) a pool larger than
+    # 2*cpu_count()+1 does not
+    pl += [(PG.saturate_resize(1, 4), 0 if tier == "quick" else 1, dict(kinds=("P",))),
+           (PG.saturate_resize(1, 5), 0, dict(kinds=("P",))),
+           (PG.saturate(5, 0, None, "reusable", cpu=1), 0, dict(kinds=("P",)))]
     pl += [(PG.respawn_race(2), 2, dict(kinds=("T", "P"), t_scope="parent:main", p_scope="parent:",
                                         p_when="_adjust_process_count"))]
     if tier == "thorough":
